@@ -85,7 +85,24 @@ func c04BindSites(c *Ctx) {
 	w := c.w
 	rule := "bind-sites"
 	if f := c.fn(rule, "(*Proxy).handleDialog"); f != nil {
-		msg := func(v ssa.Value) bool { return isParam(f, v, 3) }
+		msgIdx := msgParamIndex(f, 3)
+		msg := func(v ssa.Value) bool { return isParamSSA(f, v, msgIdx) }
+		raw := rawMsgParam(f)
+		// the peer address and port: parameters 1 and 2, or the fields of the raw message the function is handed
+		peerAddr := func(v ssa.Value) bool {
+			if raw != nil {
+				b, ok := isLoadOf(v, "RawMessage.PeerAddr")
+				return ok && strip(b) == raw
+			}
+			return isParam(f, v, 1)
+		}
+		peerPort := func(v ssa.Value) bool {
+			if raw != nil {
+				b, ok := isLoadOf(v, "RawMessage.PeerPort")
+				return ok && strip(b) == raw
+			}
+			return isParam(f, v, 2)
+		}
 		var gbr, gm ssa.CallInstruction
 		for _, cs := range w.callsIn(f, "(*Proxy).getBackendOfResponse") {
 			gbr = cs.In
@@ -102,7 +119,7 @@ func c04BindSites(c *Ctx) {
 			okAddr := false
 			if jc := w.resultOfCallTo(callArg(gbr, 0), "net.JoinHostPort", 0); jc != nil {
 				if ic := w.resultOfCallTo(jc.Call.Args[1], "strconv.Itoa", 0); ic != nil {
-					okAddr = isParam(f, jc.Call.Args[0], 1) && isParam(f, ic.Call.Args[0], 2)
+					okAddr = peerAddr(jc.Call.Args[0]) && peerPort(ic.Call.Args[0])
 				}
 			}
 			c.check(okAddr && msg(callArg(gbr, 1)), rule, "handleDialog/attribution-key", w.ipos(gbr), "the answering backend is looked up under JoinHostPort(peer address, peer port)", "the answering backend is not looked up under net.JoinHostPort(peerAddr, strconv.Itoa(peerPort)) for the handled message")
@@ -358,7 +375,12 @@ func c04Order(c *Ctx) {
 	rawArg := strip(callArg(r, 0))
 	a0, ok0 := isLoadOf(callArg(d, 0), "RawMessage.PeerAddr")
 	a1, ok1 := isLoadOf(callArg(d, 1), "RawMessage.PeerPort")
-	c.check(ok0 && ok1 && strip(a0) == rawArg && strip(a1) == rawArg && isResultOf(callArg(d, 2), r, 0), rule, "loop/handleDialog-args", w.ipos(d), "handleDialog(peer address, peer port, message) of the same raw message", "handleDialog is not given (rawMsg.PeerAddr, rawMsg.PeerPort, message returned by handleRawMessage)")
+	okArgs := ok0 && ok1 && strip(a0) == rawArg && strip(a1) == rawArg && isResultOf(callArg(d, 2), r, 0)
+	if hf := w.Fn("(*Proxy).handleDialog"); hf != nil && rawMsgParam(hf) != nil && len(d.Common().Args) == 3 {
+		// handleDialog(rawMsg, msg): the raw message itself (its peer fields are read inside, bind-sites) and the decoded one
+		okArgs = strip(callArg(d, 0)) == rawArg && isResultOf(callArg(d, 1), r, 0)
+	}
+	c.check(okArgs, rule, "loop/handleDialog-args", w.ipos(d), "handleDialog(peer address, peer port, message) of the same raw message", "handleDialog is not given (rawMsg.PeerAddr, rawMsg.PeerPort, message returned by handleRawMessage)")
 	c.check(isResultOf(callArg(m, 0), r, 0), rule, "loop/HandleMessage-arg", w.ipos(m), "the same message is routed", "HandleMessage is not given the message returned by handleRawMessage")
 	// the raw message comes from msgChannel
 	c.floor(rule, 6)
